@@ -15,7 +15,7 @@ EXPLANATION = ("(a) real find_vertices with a user-defined filter written exactl
                "(b) real connect_valid_graph on a symbolic mask (windows) == induced sub-graph, ValueError <=> empty mask")
 STUBS = ["Monitor.__call__ has an empty body", "user-defined filter = uninterpreted predicate (one z3 Bool per k-mer)"]
 ASSUMPTIONS = ["floats are modelled as reals for valid_rate = sum/len (a ratio of small integers, compared with 0 only)"]
-BUDGET_S = {"quick": 900, "thorough": 7200}
+BUDGET_S = {"quick": 900, "thorough": 1500}
 SLICE_PATHS = 200
 
 
